@@ -40,12 +40,12 @@ pub fn regime_cfg(r: Regime, rng: &mut Rng, sqlite_pct: u32) -> SimCfg {
         }
         Regime::CausalNoPropFirst => {
             c.proposals_first = false;
-            c.w_leave = 4;
+            c.w_leave = 6;
         }
         Regime::Roster => {
             c.allow_add = true;
             c.allow_remove = true;
-            c.w_leave = 3;
+            c.w_leave = 6;
         }
         Regime::Restart => {
             c.sqlite_pct = 100;
@@ -148,6 +148,17 @@ pub fn run(ctx: &Ctx) -> i32 {
     if prop == "C20" && ctx.replay.is_none() {
         c20_ttl(ctx, &mut out);
     }
+    if prop == "C07" && ctx.replay.is_none() && std::env::var("VERIF_ONLY").is_err() {
+        // directed half: refused authentic commit + applied commit of the same epoch, then re-delivery
+        let dir = ctx.scratch_dir("c07dir");
+        let n = ctx.budget(240, 4000) as u64;
+        let mut ctx2 = ctx.clone();
+        ctx2.prop = "C07-directed".into();
+        let o = crate::par::run(&ctx2, n, Duration::from_secs(ctx.tier.pick(40, 400)), |i, rng, out| super::c07dir::trial(i, rng, out, &dir));
+        let _ = std::fs::remove_dir_all(&dir);
+        out.add("c07dir_trials", o.evaluations);
+        out.merge(o);
+    }
     if prop == "C02" && ctx.replay.is_none() && (std::env::var("VERIF_ONLY").is_err() || std::env::var("VERIF_WIN_ONLY").is_ok()) {
         // windows half: reordering inside / outside the configured ratchet and past-epoch windows
         let dir = ctx.scratch_dir("c02win");
@@ -205,7 +216,10 @@ pub fn run_outcome(ctx: &Ctx) -> (&'static str, Outcome) {
                 if r < 40 { Regime::Clean } else if r < 52 { Regime::Immediate } else if r < 66 { Regime::Roster } else if r < 76 { Regime::Unrestricted } else if r < 84 { Regime::CausalNoPropFirst } else if r < 92 { Regime::RotateRace } else { Regime::Restart }
             }
         };
-        let sqlite_pct = if i % 12 == 0 || (thorough && i % 5 == 0) { 60 } else { 0 };
+        // SQLite members: one history in twelve, and every third history of the regimes with leave
+        // proposals (queued proposals are one of the tables a backend has to snapshot and restore)
+        let leaves = matches!(regime, Regime::Roster | Regime::CausalNoPropFirst);
+        let sqlite_pct = if i % 12 == 0 || (thorough && i % 5 == 0) || (leaves && i % 3 == 0) { 60 } else { 0 };
         let mut sim = regime_cfg(regime, rng, sqlite_pct);
         if prop == "C08" {
             sim.second_group = rng.chance(40);
@@ -310,7 +324,7 @@ fn describe(prop: &str, out: &Outcome, ctx: &Ctx) -> (&'static str, Vec<Floor>, 
         ),
         "C07" => (
             "inside generated histories and after their fixpoint, events that have taken effect at a client (stored message, applied or superseded commit, queued proposal, own echoes) are re-delivered 1-3 times; the complete fingerprint of every group of that client must be unchanged; non-trivial = at least one re-delivery; distinct = distinct schedules",
-            if replaying { vec![] } else { vec![Floor { what: "re-deliveries", have: out.get("c07_redeliveries"), need: 500 }, Floor { what: "distinct (kind, distance, context, result) cases", have: out.sets.get("c07_cases").map(|s| s.len()).unwrap_or(0) as u64, need: 12 }] },
+            if replaying { vec![] } else { vec![Floor { what: "re-deliveries", have: out.get("c07_redeliveries"), need: 500 }, Floor { what: "distinct (kind, distance, context, result) cases", have: out.sets.get("c07_cases").map(|s| s.len()).unwrap_or(0) as u64, need: 12 }, Floor { what: "directed trials: refused commit, then applied commit of the same epoch, then re-delivery", have: out.get("c07dir_trials_in_shape"), need: 60 }] },
             common_assumptions,
         ),
         "C08" => (
